@@ -101,7 +101,7 @@ func init() {
 	register(&Scenario{
 		Prop:  "C02",
 		Level: "exploration",
-		Rule:  "witness configurations of 1..5 logs incl. pairs sharing one key under different origins; valid checkpoints pushed through byzantine mutators (bit flips, truncations, line edits, origin rewrites, signature-block edits, foreign-key and other-log lines, key-hash forgeries, cross-log replays both ways, unknown IDs), sequentially and with valid and invalid submissions racing under the seeded scheduler; invariant after every step and on every return; non-trivial = the run submitted at least one forged/replayed checkpoint to a witness that had accepted something; distinct = distinct (mutation kind, state class, verdict, shared-key?) tuples",
+		Rule:  "witness configurations of 1..5 logs incl. pairs sharing one key under different origins, origins shaped like shards of one log (<key name> - <number>) and key pairs with colliding 32-bit IDs; valid checkpoints pushed through byzantine mutators (bit flips, truncations, line edits, origin rewrites, signature-block edits, foreign-key and other-log lines, key-hash forgeries, cross-log replays both ways, unknown IDs), sequentially and with valid and invalid submissions racing under the seeded scheduler; invariant after every step and on every return; non-trivial = the run submitted at least one forged/replayed checkpoint to a witness that had accepted something; distinct = distinct (mutation kind, state class, verdict, shared-key?) tuples",
 		Gen: func(r *Rng, tier string, n uint64) *Plan {
 			pf := Profile{MaxLogs: 5, ShareKeys: true, MinOps: 3, MaxOps: 16, Adversarial: 0.65, Mutations: 0.8, BigSizes: false, Reads: 0.02}
 			p := &Plan{Scenario: "W"}
@@ -112,6 +112,12 @@ func init() {
 			}
 			if n%7 == 3 {
 				p.Cfg.Extra = map[string]int64{"collide": 1} // two configured keys with one 32-bit key ID
+			}
+			if n%7 == 5 {
+				// origins shaped like the shards of one log: "<key name> - <shard number>" (several shards may share the key)
+				for i := range p.Cfg.Logs {
+					p.Cfg.Logs[i].Origin = fmt.Sprintf("logkey%d - %d", p.Cfg.Logs[i].Key, 2605736670972794746+int64(i))
+				}
 			}
 			return p
 		},
